@@ -1626,6 +1626,9 @@ def str_method(interp, recv, name, args, kwargs):
         raise Unsupported('str.encode on symbolic string')
     if kwargs:
         raise Unsupported('str.%s with keyword arguments on symbolic string' % name)
+    exact = _exact_char_search(interp, recv, name, args)
+    if exact is not NotImplemented:
+        return exact
     if name in PURE_STR_METHODS_INT:
         # assumed contract: the result is a function of the receiver and the arguments; find-like results are -1 or a
         # position at which the pattern fits inside the text (and not before an integer start position)
@@ -1707,6 +1710,53 @@ def str_method(interp, recv, name, args, kwargs):
     if name in PURE_STR_METHODS_STR:
         return str_uf(interp, name, recv, *args, sort='str')
     raise Unsupported('str.%s on symbolic string' % name)
+
+
+def _exact_char_search(interp, recv, name, args):
+    """find / rfind / index / rindex / count / startswith / endswith on strings of concrete length (symbolic characters):
+    CPython's semantics, decided by forking on character equalities"""
+    if name not in ('find', 'rfind', 'index', 'rindex', 'count', 'startswith', 'endswith') or not args or not is_str(args[0]):
+        return NotImplemented
+    hay = sym.s_chars(recv) if is_str(recv) else None
+    pat = sym.s_chars(args[0])
+    if hay is None or pat is None:
+        return NotImplemented
+    if any(is_z3(a) for a in args[1:]):
+        return NotImplemented
+    c = ctx()
+    n, m = len(hay), len(pat)
+    lo, hi, _ = slice(*(list(args[1:3]) + [None] * (2 - len(args[1:3])))).indices(n)
+
+    def at(pos):
+        return c.truth(b_and(*[i_cmp('==', hay[pos + k], pat[k]) for k in range(m)]))
+    if name == 'startswith':
+        return (hi - lo >= m) and lo <= n and at(lo) if (m <= max(hi - lo, 0) and lo + m <= n) else (m == 0 and lo <= n)
+    if name == 'endswith':
+        return at(hi - m) if (m <= max(hi - lo, 0)) else (m == 0 and lo <= n)
+    positions = [p for p in range(lo, hi - m + 1)] if hi - m >= lo else []
+    if name in ('find', 'index'):
+        for p in positions:
+            if at(p):
+                return p
+        if name == 'index':
+            raise PyExc('ValueError', 'substring not found', True)
+        return -1
+    if name in ('rfind', 'rindex'):
+        for p in reversed(positions):
+            if at(p):
+                return p
+        if name == 'rindex':
+            raise PyExc('ValueError', 'substring not found', True)
+        return -1
+    cnt = 0
+    p = lo
+    while p <= hi - m:
+        if at(p):
+            cnt += 1
+            p += max(m, 1)
+        else:
+            p += 1
+    return cnt
 
 
 def list_method(interp, lst, name, args, kwargs):
